@@ -1,0 +1,15 @@
+//go:build verif
+
+package logr
+
+// Contracts for the hvc verifier (/verif). Comment-only.
+//
+// C07: a file handed in by a third-party agent (through the service) is written below the agent's own
+// Download directory or not at all. inside(x, d): x is d itself or lies below it (with a separator:
+// a sibling such as .../Download_evil does not count).
+//@ spec inside(x, d) = x == d || prefixof(d + "/", x)
+//@ func (l Logr) DemonAddDownloadedFile(DemonID string, FileName string, FileBytes []byte)
+//@   modifies *
+//@   guard-call contain: "Mkdir|Create" inside(ufs_clean(l.AgentPath + "/" + DemonID + "/Download/" + FileName), l.AgentPath + "/" + DemonID + "/Download")
+//@   guard-call target:  "Create" arg(0) == l.AgentPath + "/" + DemonID + "/Download/" + FileName
+//@   guard-call content: "Write" sameslice(arg(1), FileBytes)
